@@ -25,11 +25,11 @@ def run(tier, seed):
     rng = ctx.rng
     drv = ctx.driver()
     reps = 5 if tier == "quick" else 40
+    seen_broken = set()
     for name in G.REG:
         fam = G.REG[name][1]
         for cb in (True, False):
-            for _ in range(reps):
-                args = G.sample_args(rng, name, cb, tier)
+            for args in [G.sample_args(rng, name, cb, tier) for _ in range(reps)] + G.corner_args(name, cb):
                 o = {}
                 for eb in (True, False):
                     for rsc in (True, False):
@@ -61,7 +61,14 @@ def run(tier, seed):
                         continue
                     # model, with the recorded oracle values
                     if fam != "invrect":
-                        ml = G.model_line(drv, name, args, True, True, cb, o[(True, True)]["rec"], o[(True, True)])
+                        try:
+                            ml = G.model_line(drv, name, args, True, True, cb, o[(True, True)]["rec"], o[(True, True)])
+                        except (G.OracleMissing, IndexError) as e:
+                            if (name, cb) not in seen_broken:
+                                seen_broken.add((name, cb))
+                                ctx.violation("c17:correspondence-broken:%s" % name, "correspondence generate() <-> Model/Generators.lean cannot be established: %s" % e,
+                                              dict(replay, correspondence="QSP/Model/Generators.lean <-> pyqsp.poly.%s.generate (oracle recording)" % G.REG[name][0]), found_input=False)
+                            continue
                         why = G.compare_with_model(name, cb, o[(True, True)], G.parse_model(ml))
                         ctx.count("model-compared")
                         if why:
@@ -69,8 +76,7 @@ def run(tier, seed):
                             continue
             # (c) both bases denote the same polynomial (cosine, sine, 1/x)
         if fam in ("cos", "sin", "inv"):
-            for _ in range(reps):
-                args = G.sample_args(rng, name, False, tier)
+            for args in [G.sample_args(rng, name, False, tier) for _ in range(reps)] + G.corner_args(name, False):
                 eb = bool(rng.random() < 0.5)
                 m = G.call(PL, name, args, eb, False, False)
                 c = G.call(PL, name, args, eb, False, True)
